@@ -237,6 +237,32 @@ def run(prog, ctx):
         ctx.ok("W3", "the reader records the first comment character as the object's tag", cs[0].where, " / ".join(vals))
     else:
         ctx.fail("W3", "the reader records the first comment character as the object's tag", (cs[0] if cs else gate).where, "stores %s" % vals, key="reader-comment")
+    # ... on EVERY read: the tag store is not skipped for an object that already carries one (the object may have been created
+    # with defaults, or be reused)
+    from rules import common as _common
+    pc = gate.calls(_common.PARSER)
+    if cs and len(pc) == 1:
+        gcfg = gate.cfg
+        blocks = set(gcfg.block_of(x) for x in cs)
+        succ = {(b, i): s2 for (b, i, s2) in gcfg.edges()}
+        okm, cutm = gcfg.all_paths_cut(gcfg.block_of(pc[0]), lambda lit, b, i: succ.get((b, i)) in blocks or b in blocks)
+        if okm and cutm:
+            ctx.ok("W3", "every read records its comment character", cs[0].where, "no path to %s() skips the store" % _common.PARSER)
+        else:
+            ctx.fail("W3", "every read records its comment character", cs[0].where,
+                     "the store of the comment tag is conditional: an object that already carries a tag keeps it although the file is parsed with another "
+                     "comment character - written back, its comments get the wrong prefix and do not read back as comments", key="reader-comment-conditional")
+    if ds:
+        rcfg = rf.cfg
+        L0 = parser.landmarks(prog)
+        blocks = set(rcfg.block_of(x) for x in ds)
+        succ = {(b, i): s2 for (b, i, s2) in rcfg.edges()}
+        okm, cutm = rcfg.all_paths_cut(L0.header, lambda lit, b, i: succ.get((b, i)) in blocks or b in blocks)
+        if okm and cutm:
+            ctx.ok("W3", "every read records its delimiter", ds[0].where, "no path to the line loop skips the store")
+        else:
+            ctx.fail("W3", "every read records its delimiter", ds[0].where, "the store of the delimiter tag is conditional: an object that already carries a "
+                     "tag is written back with a delimiter the file was not read with", key="reader-delimiter-conditional")
     m = prog.fn("econf_mergeFiles")
     base = m.params[1]["name"]
     for tag in ("delimiter", "comment"):
